@@ -166,6 +166,10 @@ pub trait Prop: Sync {
     fn case_kind(&self, case: &Value) -> String {
         case.get("kind").and_then(|k| k.as_str()).unwrap_or("case").to_string()
     }
+    /// what makes a case "the same input" for per-input known-finding lists (default: the whole case)
+    fn case_identity(&self, case: &Value) -> String {
+        case.to_string()
+    }
     fn enumerate(&self, tier: Tier, sink: &mut Sink);
     fn run(&self, case: &Value) -> Outcome;
 }
@@ -225,6 +229,8 @@ impl<'a> Sink<'a> {
 
 #[derive(Debug, Default, Serialize, Deserialize, Clone)]
 struct SigAgg {
+    #[serde(default)]
+    known: Option<String>,
     count: u64,
     first_idx: u64,
     what: String,
@@ -338,6 +344,8 @@ pub struct WorkerState<'a> {
     agg: Agg,
     last_ckpt: Instant,
     isolated: bool,
+    findings: FindingSet,
+    viol: std::io::BufWriter<std::fs::File>,
 }
 
 impl<'a> WorkerState<'a> {
@@ -422,7 +430,12 @@ impl<'a> WorkerState<'a> {
     }
 
     fn record(&mut self, idx: u64, case: &Value, v: Violation) {
-        let e = self.agg.sigs.entry(v.signature.clone()).or_insert_with(|| SigAgg {
+        let idh = hash64(&self.prop.case_identity(case));
+        let known = self.findings.covering(&v.signature, idh).map(|f| f.what.clone());
+        let _ = writeln!(self.viol, "{idh:016x}\t{}", v.signature);
+        let key = format!("{}\t{}", if known.is_some() { "K" } else { "N" }, v.signature);
+        let e = self.agg.sigs.entry(key).or_insert_with(|| SigAgg {
+            known,
             count: 0,
             first_idx: idx,
             what: v.what.clone(),
@@ -434,6 +447,7 @@ impl<'a> WorkerState<'a> {
 
     fn checkpoint(&mut self, idx: u64) {
         let _ = self.keys.flush();
+        let _ = self.viol.flush();
         let line = json!({"ckpt": idx, "agg": self.agg});
         let out = std::io::stdout();
         let mut out = out.lock();
@@ -530,6 +544,8 @@ pub fn worker_main(prop: &dyn Prop, tier: Tier, seed: u64, a: WorkerArgs) -> i32
         // always announce: a hang or abort must be attributable in every property (one pwrite per
         // case; block-style properties have few, large cases)
         isolated: true,
+        findings: FindingSet::load(prop.id()),
+        viol: std::io::BufWriter::new(std::fs::File::create(format!("{}.viol", a.keys)).expect("viol file")),
     };
 
     let mut sink = Sink {
@@ -543,6 +559,7 @@ pub fn worker_main(prop: &dyn Prop, tier: Tier, seed: u64, a: WorkerArgs) -> i32
     let total = sink.idx;
     let mut state = sink.worker.take().unwrap();
     let _ = state.keys.flush();
+    let _ = state.viol.flush();
     let line = json!({"done": total, "agg": state.agg});
     let out = std::io::stdout();
     let mut out = out.lock();
@@ -575,6 +592,42 @@ pub struct Finding {
     pub what: String,
     #[serde(default)]
     pub commit: Option<String>,
+    /// optional file (relative to /verif) listing the identity hashes of the inputs this finding covers;
+    /// a violation with a matching signature on an input that is not listed is a new violation
+    #[serde(default)]
+    pub inputs_file: Option<String>,
+}
+
+pub struct FindingSet {
+    entries: Vec<(Finding, Option<std::collections::HashSet<u64>>)>,
+}
+
+impl FindingSet {
+    pub fn load(property: &str) -> Self {
+        let entries = load_findings()
+            .into_iter()
+            .filter(|f| f.property == property && f.status == "open")
+            .map(|f| {
+                let set = f.inputs_file.as_ref().map(|p| {
+                    std::fs::read_to_string(format!("{VERIF_ROOT}/{p}"))
+                        .unwrap_or_default()
+                        .lines()
+                        .filter_map(|l| u64::from_str_radix(l.trim(), 16).ok())
+                        .collect::<std::collections::HashSet<u64>>()
+                });
+                (f, set)
+            })
+            .collect();
+        FindingSet { entries }
+    }
+
+    /// the open finding (if any) that covers this signature on this input
+    pub fn covering(&self, sig: &str, identity_hash: u64) -> Option<&Finding> {
+        self.entries
+            .iter()
+            .find(|(f, set)| sig_matches(&f.signature, sig) && set.as_ref().map(|s| s.contains(&identity_hash)).unwrap_or(true))
+            .map(|(f, _)| f)
+    }
 }
 
 pub fn load_findings() -> Vec<Finding> {
@@ -732,7 +785,14 @@ fn run_shard(
         } else {
             format!("abort|{how}|{ck}|{phase}")
         };
-        let e = merged.sigs.entry(sig).or_insert_with(|| SigAgg {
+        let idh = hash64(&prop.case_identity(&case));
+        let known = FindingSet::load(prop.id()).covering(&sig, idh).map(|f| f.what.clone());
+        if let Ok(mut f) = std::fs::OpenOptions::new().create(true).append(true).open(format!("{dir}/keys.{shard}.0.viol")) {
+            let _ = writeln!(f, "{idh:016x}\t{sig}");
+        }
+        let key = format!("{}\t{sig}", if known.is_some() { "K" } else { "N" });
+        let e = merged.sigs.entry(key).or_insert_with(|| SigAgg {
+            known,
             count: 0,
             first_idx: idx,
             what: format!("{kind} ({how}) while running the case (cap {CASE_TIMEOUT_S}s / {} GiB)", WORKER_AS_LIMIT >> 30),
@@ -753,7 +813,7 @@ fn count_distinct_keys(dir: &str) -> u64 {
     if let Ok(rd) = std::fs::read_dir(dir) {
         for e in rd.flatten() {
             let name = e.file_name().to_string_lossy().to_string();
-            if !name.starts_with("keys.") {
+            if !name.starts_with("keys.") || name.ends_with(".viol") {
                 continue;
             }
             if let Ok(bytes) = std::fs::read(e.path()) {
@@ -886,23 +946,45 @@ pub fn coordinator_main(prop: &dyn Prop, tier: Tier, seed: u64) -> i32 {
     }
     let distinct = count_distinct_keys(&dir);
 
-    // verdicts
-    let findings = load_findings();
+    // verdicts (workers already matched every violation against the known findings, per input)
     let mut known_lines = vec![];
     let mut new_sigs: Vec<(String, SigAgg)> = vec![];
-    for (sig, sa) in &agg.sigs {
-        let m = findings
-            .iter()
-            .find(|f| f.property == id && f.status == "open" && sig_matches(&f.signature, sig));
-        match m {
-            Some(f) => known_lines.push(format!(
-                "KNOWN-FINDING: property={id} {} [signature {sig}, {} cases; first: {}]",
-                f.what,
+    for (key, sa) in &agg.sigs {
+        let sig = key.split_once('\t').map(|x| x.1).unwrap_or(key).to_string();
+        match &sa.known {
+            Some(what) => known_lines.push(format!(
+                "KNOWN-FINDING: property={id} {what} [signature {sig}, {} cases; first: {}]",
                 sa.count,
                 first_line(&sa.what, 160)
             )),
-            None => new_sigs.push((sig.clone(), sa.clone())),
+            None => new_sigs.push((sig, sa.clone())),
         }
+    }
+
+    if let Ok(dump) = std::env::var("VERIF_DUMP_INPUTS") {
+        // maintenance mode: write the identity hashes of every violating input whose signature matches
+        let pat = std::env::var("VERIF_DUMP_PATTERN").unwrap_or_else(|_| "*".into());
+        let mut all: Vec<u64> = vec![];
+        if let Ok(rd) = std::fs::read_dir(&dir) {
+            for e in rd.flatten() {
+                if e.file_name().to_string_lossy().ends_with(".viol") {
+                    for l in std::fs::read_to_string(e.path()).unwrap_or_default().lines() {
+                        if let Some((h, sg)) = l.split_once('\t') {
+                            if sig_matches(&pat, sg) {
+                                if let Ok(h) = u64::from_str_radix(h, 16) {
+                                    all.push(h);
+                                }
+                            }
+                        }
+                    }
+                }
+            }
+        }
+        all.sort_unstable();
+        all.dedup();
+        let text: String = all.iter().map(|h| format!("{h:016x}\n")).collect();
+        let _ = std::fs::write(&dump, text);
+        println!("dumped {} violating input identities matching {pat} to {dump}", all.len());
     }
 
     let replay_dir = format!("{VERIF_ROOT}/replays/{id}");
@@ -992,8 +1074,8 @@ pub fn coordinator_main(prop: &dyn Prop, tier: Tier, seed: u64) -> i32 {
         json!(agg
             .sigs
             .iter()
-            .filter(|(s, _)| !new_sigs.iter().any(|(n, _)| n == *s))
-            .map(|(s, a)| json!({"signature": s, "cases": a.count}))
+            .filter(|(_, a)| a.known.is_some())
+            .map(|(s, a)| json!({"signature": s.split_once('\t').map(|x| x.1).unwrap_or(s), "cases": a.count}))
             .collect::<Vec<_>>()),
     );
     coverage.insert(
